@@ -11,6 +11,7 @@ import SslModel.Model.StdLib
 import SslModel.Model.Conc
 import SslModel.Model.Check
 import SslModel.Model.CheckF
+import SslModel.Model.CheckS
 /-! Model side of the correspondence: one request per line on stdin, one canonical answer per
     line on stdout.  Import-free apart from the model, so it links as a native executable. -/
 open Ssl
@@ -192,6 +193,22 @@ def handleTyOfF (rest : String) : String :=
     | _, _ => "(bad-program)"
   | _ => "(bad-request)"
 
+/-- `tyofs ((x T)*) (S*)` : the same with the checker model that also knows cells and loops -/
+def handleTyOfS (rest : String) : String :=
+  match Sexp.parseMany rest with
+  | [.list binds, .list stmts] =>
+    let g := binds.mapM fun (b : Sexp) => match b with
+      | Sexp.list [Sexp.atom x, t] => (Ty.ofSexp t).map fun t => (x, t)
+      | _ => none
+    match g, stmts.mapM Spec.exprOf with
+    | some g, some ss =>
+      match (CheckS.tySProgram g.reverse ss) with
+      | .ok t => "(ok " ++ t.render ++ ")"
+      | .ill => "(ill)"
+      | .unsup => "(unsup)"
+    | _, _ => "(bad-program)"
+  | _ => "(bad-request)"
+
 /-- `repl <flags> <fuel> (name*) (S*)*` -/
 def handleRepl (rest : String) : String :=
   match Sexp.parseMany rest with
@@ -279,6 +296,7 @@ def handleConc (all : Bool) (ncells inits threads : String) : String :=
 def handle (line : String) : String :=
   if line.startsWith "valdebug " || line.startsWith "valparse " then handleVal line else
   if line.startsWith "repl " then handleRepl ((line.drop 5).trimAscii.toString) else
+  if line.startsWith "tyofs " then handleTyOfS ((line.drop 6).trimAscii.toString) else
   if line.startsWith "tyoff " then handleTyOfF ((line.drop 6).trimAscii.toString) else
   if line.startsWith "tyof " then handleTyOf ((line.drop 5).trimAscii.toString) else
   if line.startsWith "prog " then handleProg ((line.drop 5).trimAscii.toString) else
